@@ -500,15 +500,15 @@ Proof.
         -- intros E. apply H2. right. exact E.
 Qed.
 
-Lemma filter_ids_allow_body : forall (d : doc) (fields : list key),
+Lemma filter_ids_body : forall (d : doc) (fields : list key) (allow : bool),
   exists o', fold_left step_allow
-               (filter (fun id => negb (memb (keyof d id) fields)) (arr (decode (length d))))
+               (filter (to_remove d fields allow) (arr (decode (length d))))
                (Ok (decode (length d))) = Ok o'
              /\ NoDup (arr o') /\ chain_ok (nxt o') (arr o')
-             /\ (forall x, In x (arr o') <-> x < length d /\ keep fields true (fld_of d x) = true).
+             /\ (forall x, In x (arr o') <-> x < length d /\ keep fields allow (fld_of d x) = true).
 Proof.
-  intros d fields.
-  destruct (allow_fold (filter (fun id => negb (memb (keyof d id) fields)) (arr (decode (length d))))
+  intros d fields allow.
+  destruct (allow_fold (filter (to_remove d fields allow) (arr (decode (length d))))
               (decode (length d)) (decode_nodup _) (decode_chain _))
     as [o' [F1 [F2 [F3 F4]]]].
   - apply NoDup_filter. apply decode_nodup.
@@ -516,9 +516,12 @@ Proof.
   - reflexivity.
   - exists o'. split; [exact F1|]. split; [exact F2|]. split; [exact F3|].
     intros x. rewrite F4, filter_In. cbn [arr decode]. rewrite in_seq.
-    unfold keep, fld_of, keyof. destruct (memb (fst (nth x d (0, 0))) fields); simpl.
+    unfold to_remove, keep, fld_of, keyof.
+    destruct allow; destruct (memb (fst (nth x d (0, 0))) fields); simpl.
     + split; [intros [H _]; split; [lia|reflexivity]|intros [H _]; split; [lia|]]. intros [_ E]. discriminate.
     + split; [intros [H1 H2]; exfalso; apply H2; split; [exact H1|reflexivity]|intros [_ E]; discriminate].
+    + split; [intros [H1 H2]; exfalso; apply H2; split; [exact H1|reflexivity]|intros [_ E]; discriminate].
+    + split; [intros [H _]; split; [lia|reflexivity]|intros [H _]; split; [lia|]]. intros [_ E]. discriminate.
 Qed.
 
 Lemma finish_ids : forall (d : doc) (P : fld -> bool) o',
@@ -534,18 +537,18 @@ Proof.
   - apply le_S. apply ids_length; [exact Hnd|]. intros x Hx. apply H in Hx. tauto.
 Qed.
 
-Lemma projection_exact_allow :
-  forall (d : doc) (fields : list key),
-    exists out, filter_fields d fields true = Ok out /\ Permutation out (project d fields true).
+Lemma projection_exact :
+  forall (d : doc) (fields : list key) (allow : bool),
+    exists out, filter_fields d fields allow = Ok out /\ Permutation out (project d fields allow).
 Proof.
-  intros d fields. unfold filter_fields, filter_ids, project.
+  intros d fields allow. unfold filter_fields, filter_ids, project.
   destruct fields as [|k fields].
   - cbn [bind]. rewrite map_fld_of_seq. exists d. split; [reflexivity|apply Permutation_refl].
-  - destruct (filter_ids_allow_body d (k :: fields)) as [o' [F1 [F2 [F3 F4]]]].
+  - destruct (filter_ids_body d (k :: fields) allow) as [o' [F1 [F2 [F3 F4]]]].
     cbv zeta. rewrite F1. apply finish_ids; assumption.
 Qed.
 
-(* ------------------------------------------------------------------ block-list *)
+(* ------------------------------------------------------------------ block-list before c998f0f (v0) *)
 Lemma find_key_none : forall d k l i, find_key d k l i = None ->
   forall id, In id l -> keyof d id <> k.
 Proof.
@@ -622,11 +625,11 @@ Proof.
   apply (proj1 (NoDup_nth (map fst d) 0) Hnd); [rewrite map_length; exact Hx|rewrite map_length; exact Hy|exact E].
 Qed.
 
-Lemma projection_exact_except :
+Lemma projection_exact_except_v0 :
   forall (d : doc) (fields : list key), NoDup (map fst d) ->
-    exists out, filter_fields d fields false = Ok out /\ Permutation out (project d fields false).
+    exists out, filter_fields_except_v0 d fields = Ok out /\ Permutation out (project d fields false).
 Proof.
-  intros d fields Hd. unfold filter_fields, filter_ids, project.
+  intros d fields Hd. unfold filter_fields_except_v0, filter_ids_except_v0, project.
   destruct fields as [|k fields].
   - cbn [bind]. rewrite map_fld_of_seq. exists d. split; [reflexivity|apply Permutation_refl].
   - destruct (except_fold d (k :: fields) (decode (length d)) (decode_nodup _) (decode_chain _)
@@ -650,17 +653,12 @@ Qed.
 
 Lemma projection_spec_ok :
   forall (d : doc) (fields : list key) (allow : bool) (out : doc),
-    (allow = true \/ NoDup (map fst d)) ->
     filter_fields d fields allow = Ok out ->
     impl_spec_ok d fields allow (IObj out) = true.
 Proof.
-  intros d fields allow out H E. simpl. apply perm_same_fields.
-  destruct allow.
-  - destruct (projection_exact_allow d fields) as [out' [E' P]].
-    rewrite E in E'. inversion E'; subst. exact P.
-  - destruct H as [H|H]; [discriminate|].
-    destruct (projection_exact_except d fields H) as [out' [E' P]].
-    rewrite E in E'. inversion E'; subst. exact P.
+  intros d fields allow out E. simpl. apply perm_same_fields.
+  destruct (projection_exact d fields allow) as [out' [E' P]].
+  rewrite E in E'. inversion E'; subst. exact P.
 Qed.
 
 (* ------------------------------------------------------------------ 4. untouched cases *)
@@ -675,38 +673,6 @@ Proof.
   simpl. rewrite seq_length. lia.
 Qed.
 
-Lemma except_noop_fold : forall (d : doc) fields o,
-  (forall id k, In id (arr o) -> In k fields -> keyof d id <> k) ->
-  fold_left (step_except d) fields (Ok o) = Ok o.
-Proof.
-  intros d fields. induction fields as [|k fields IH]; intros o H; [reflexivity|].
-  cbn [fold_left]. unfold step_except at 2. cbn [bind]. unfold dig.
-  rewrite find_key_none_intro.
-  - apply IH. intros id k' Hid Hk. apply H; [exact Hid|right; exact Hk].
-  - intros id Hid. apply H; [exact Hid|left; reflexivity].
-Qed.
-
-Lemma memb_false_notin : forall k l, memb k l = false -> forall x, In x l -> k <> x.
-Proof.
-  intros k l. induction l as [|y l IH]; simpl; intros H x Hx; [destruct Hx|].
-  apply orb_false_iff in H. destruct H as [H1 H2]. destruct Hx as [<-|Hx].
-  - apply Nat.eqb_neq in H1. intros E. apply H1. symmetry. exact E.
-  - apply IH; assumption.
-Qed.
-
-Lemma except_absent_untouched :
-  forall d fields, (forall f, In f d -> memb (fst f) fields = false) ->
-    filter_fields d fields false = Ok d.
-Proof.
-  intros d fields H. destruct fields as [|k fields]; [apply filter_empty_list|].
-  unfold filter_fields, filter_ids. cbv zeta.
-  rewrite except_noop_fold.
-  - cbn [bind]. rewrite encode_decode. cbn [bind]. rewrite map_fld_of_seq. reflexivity.
-  - intros id k' Hid Hk. cbn [arr decode] in Hid. apply in_seq in Hid.
-    apply (memb_false_notin _ (k :: fields)); [|exact Hk].
-    apply H. unfold keyof. apply nth_In. destruct Hid as [_ Hid]. exact Hid.
-Qed.
-
 Lemma filter_all_false : forall {A} (f : A -> bool) l,
   (forall x, In x l -> f x = false) -> filter f l = [].
 Proof.
@@ -714,14 +680,35 @@ Proof.
   rewrite H by (left; reflexivity). apply IH. intros y Hy. apply H. right. exact Hy.
 Qed.
 
+Lemma nothing_to_remove_untouched :
+  forall d fields allow, fields <> [] ->
+    (forall f, In f d -> keep fields allow f = true) ->
+    filter_fields d fields allow = Ok d.
+Proof.
+  intros d fields allow _ H. destruct fields as [|k fields]; [apply filter_empty_list|].
+  unfold filter_fields, filter_ids. cbv zeta.
+  rewrite filter_all_false.
+  - cbn [fold_left bind]. rewrite encode_decode. cbn [bind]. rewrite map_fld_of_seq. reflexivity.
+  - intros id Hid. cbn [arr decode] in Hid. apply in_seq in Hid.
+    assert (Hk : keep (k :: fields) allow (fld_of d id) = true).
+    { apply H. unfold fld_of. apply nth_In. destruct Hid as [_ Hid]. exact Hid. }
+    unfold keep, fld_of in Hk. unfold to_remove, keyof.
+    destruct allow; [apply negb_false_iff; exact Hk| apply negb_true_iff in Hk; exact Hk].
+Qed.
+
+Lemma except_absent_untouched :
+  forall d fields, (forall f, In f d -> memb (fst f) fields = false) ->
+    filter_fields d fields false = Ok d.
+Proof.
+  intros d fields H. destruct fields as [|k fields]; [apply filter_empty_list|].
+  apply nothing_to_remove_untouched; [congruence|].
+  intros f Hf. unfold keep. rewrite (H f Hf). reflexivity.
+Qed.
+
 Lemma allow_all_listed_untouched :
   forall d fields, fields <> [] -> (forall f, In f d -> memb (fst f) fields = true) ->
     filter_fields d fields true = Ok d.
 Proof.
-  intros d fields _ H. destruct fields as [|k fields]; [apply filter_empty_list|].
-  unfold filter_fields, filter_ids. cbv zeta.
-  rewrite filter_all_false.
-  - cbn [fold_left bind]. rewrite encode_decode. cbn [bind]. rewrite map_fld_of_seq. reflexivity.
-  - intros id Hid. cbn [arr decode] in Hid. apply in_seq in Hid. apply negb_false_iff.
-    apply H. unfold keyof. apply nth_In. destruct Hid as [_ Hid]. exact Hid.
+  intros d fields Hne H. apply nothing_to_remove_untouched; [exact Hne|].
+  intros f Hf. unfold keep. exact (H f Hf).
 Qed.
